@@ -29,6 +29,7 @@ import time
 from typing import Any, Dict, List, Optional
 
 from .. import core_check, frontend as fe, gen, pipeline, report, tla
+from ..core_check import budget_map
 from .. import replay as rp
 from .core import NPROC, _size
 
@@ -634,7 +635,7 @@ def run(prop: str, tier: str, seed: int) -> int:
         import concurrent.futures as cf
 
         with cf.ProcessPoolExecutor(max_workers=NPROC) as ex:
-            results = list(ex.map(unit, units))
+            results = budget_map(ex, unit, units)
     else:
         results = [unit(u) for u in units]
     cov: Dict[str, Any] = {"machines": len(specs), "rewrite_sets": len(rsets), "rewrite_cases": 0, "respelt_configs_differing": 0,
